@@ -102,7 +102,44 @@ class TemplateEval:
                 hi = self.bound(node.slice.upper, None)
                 out.append((l, self.slice(t, lo, hi)))
             return out
+        if isinstance(node, ast.Call) and isinstance(node.func, ast.Attribute) and node.func.attr in ('strip', 'lstrip', 'rstrip') and len(node.args) == 1 and not node.keywords:
+            chars = self.alts(node.args[0])
+            if len(chars) != 1 or not all(k == 'lit' for k, _ in chars[0][1]):
+                raise Unresolved(f'string template: strip() with a non-literal character set: {txt}')
+            cs = ''.join(v for _, v in chars[0][1])
+            return [(l, self.strip(t, cs, node.func.attr)) for l, t in self.alts(node.func.value)]
         raise Unresolved(f'string template: expression outside vocabulary: {txt}')
+
+    def strip(self, t: tuple, chars: str, how: str):
+        """strip(chars) removes EVERY leading / trailing character of the set, not one framing character: what it does to the literal parts is computed, a symbol it reaches may lose
+        characters of its own (a name that itself begins or ends with one of them) and is no longer the symbol."""
+        t = list(t)
+        if how in ('strip', 'lstrip'):
+            while t:
+                k, v = t[0]
+                if k == 'lit':
+                    v2 = v.lstrip(chars)
+                    if v2:
+                        t[0] = ('lit', v2)
+                        break
+                    t.pop(0)
+                else:
+                    if not (self.hidden and '_' not in chars):      # a hidden name starts with '_': the stripping stops there
+                        t[0] = ('sym', f'{v}.lstrip({chars!r})')
+                    break
+        if how in ('strip', 'rstrip'):
+            while t:
+                k, v = t[-1]
+                if k == 'lit':
+                    v2 = v.rstrip(chars)
+                    if v2:
+                        t[-1] = ('lit', v2)
+                        break
+                    t.pop()
+                else:
+                    t[-1] = ('sym', f'{v}.rstrip({chars!r})')
+                    break
+        return norm(t)
 
     def one(self, node) -> tuple:
         a = self.alts(node)
